@@ -234,4 +234,13 @@ def exception_hierarchy(repo=None):
                 table[e] = ch
             dfs(ch)
     dfs("BrokerResponseError")
+    # module-level aliases (`CoordinatorNotAvailableError = GroupCoordinatorNotAvailableError`): the same class object
+    for s in m.tree.body if hasattr(m, "tree") else []:
+        if isinstance(s, ast.Assign) and len(s.targets) == 1 and isinstance(s.targets[0], ast.Name) \
+                and isinstance(s.value, ast.Name) and s.value.id in ids and s.targets[0].id not in ids:
+            a, b = s.targets[0].id, s.value.id
+            ids[a] = ids[b]
+            anc[a] = anc[b]
+            parents[a] = parents[b]
+            attrs[a] = attrs.get(b, {})
     return {"ids": ids, "anc": anc, "attr": attr, "parents": parents, "for_code": table}
